@@ -50,7 +50,8 @@ RULE = ("complete enumeration inside stated bounds, in blocks. combine_slices: e
         "broadcast_arrays_minimal: every shape with axes 0..3 up to 3-d (thorough 0..4, and 4-d 1..2) x every per-axis "
         "stride pattern in {normal, broadcast(0), reversed(<0), strided(2x)} x {float,bool} x {plain, transposed}; "
         "non-trivial when a broadcast or reversed axis longer than 1 is present. view_shape: every shape with axes 0..3 "
-        "up to 3-d x a per-axis catalogue of slices / integers (1-d: all start/stop/step incl. negative) plus Ellipsis, "
+        "up to 3-d x a per-axis catalogue of slices / integers (1-d: all start/stop/step incl. negative) plus plain Python "
+        "lists (of ints, numpy ints, bools, slices, nested, inside tuples; what numpy rejects is skipped and counted), Ellipsis, "
         "short tuples, newaxis, index arrays, boolean masks. categorical_ndarray / unique: every array over the 4-symbol "
         "alphabet ('a','b','cc','') up to length 4 (thorough 6) incl. its 2-d/3-d reshapes, every one of them also as "
         "transposed view, Fortran-ordered copy, strided-rows view, reversed-columns view (1-d: reversed and strided "
@@ -492,6 +493,27 @@ def run_view_shape(ctx, shape):
             if k == nd and nd <= 2:
                 check_view_shape(ctx, shape, "newaxis", (None,) + view)
                 check_view_shape(ctx, shape, "newaxis", view + (None,))
+    # plain Python lists as the view (numpy: a fancy index along axis 0 - not a tuple of per-axis entries)
+    if nd >= 1:
+        n0 = shape[0]
+        lists = [("list_empty", [])]
+        if n0 > 0:
+            lists += [("list_of_ints", [0]), ("list_of_ints", [n0 - 1, 0, 0]), ("list_of_ints", [-1, 0]),
+                      ("list_of_ints", list(range(n0))), ("list_of_numpy_ints", [np.int64(0), np.int64(n0 - 1)]),
+                      ("nested_list_of_ints", [[0, n0 - 1], [n0 - 1, 0]]), ("nested_list_of_ints", [[0], [0]]),
+                      ("list_in_tuple", ([0, n0 - 1],) + (slice(None),) * (nd - 1)),
+                      ("list_in_tuple", (slice(None),) * (nd - 1) + ([0, 0],))]
+        lists += [("list_of_bools", [True] * n0), ("list_of_bools", [i % 2 == 0 for i in range(n0)]),
+                  ("list_of_bools", [False] * n0), ("list_of_bools_wrong_length", [True] * (n0 + 1)),
+                  ("list_of_slices", [slice(None)] * nd), ("list_of_slices", [slice(0, 1)] * min(nd, 2)),
+                  ("list_of_slice_and_int", [slice(None), 0][:max(1, nd)]), ("list_with_ellipsis", [Ellipsis, 0]),
+                  ("list_with_none", [None, slice(None)])]
+        if nd >= 2 and n0 > 0 and shape[1] > 0:
+            lists += [("list_of_int_lists_as_tuple_entries", ([0, n0 - 1], [0, shape[1] - 1])),
+                      ("nested_list_of_bools", [[True] * shape[1]] * n0)]
+        for kind, v in lists:
+            ctx.count("view_shape_list_views_tried")
+            check_view_shape(ctx, shape, kind, v)
     # the shape given as a list / as numpy integers
     check_view_shape(ctx, list(shape), "shape_as_list", tuple(slice(None, None, 2) for _ in shape))
     check_view_shape(ctx, tuple(np.int64(n) for n in shape), "shape_of_numpy_ints", tuple(slice(1, None) for _ in shape))
@@ -833,7 +855,8 @@ def floors(counters, tier):
                      ("broadcast_arrays_minimal_cases", 500), ("view_shape_cases", 5000), ("categorical_cases", 100),
                      ("unique_cases", 150), ("index_lookup_cases", 1000),
                      ("combine_slices_large_length_pairs", 20000), ("iterate_chunks_large_shape_cases", 100),
-                     ("view_shape_tuples_with_backward_slice", 5000), ("view_shape_tuples_with_empty_slice", 5000),
+                     ("view_shape_kind_list_of_ints", 100), ("view_shape_kind_list_of_bools", 80),
+                     ("view_shape_kind_nested_list_of_ints", 50), ("view_shape_tuples_with_backward_slice", 5000), ("view_shape_tuples_with_empty_slice", 5000),
                      ("view_shape_tuples_with_stepped_slice", 5000), ("unbroadcast_dtype_variant_cases", 500),
                      ("unique_dtype_cases", 1000), ("unique_big_array_cases", 20), ("categorical_history_cases", 100),
                      ("index_lookup_dtype_cases", 15)):
